@@ -32,6 +32,7 @@ def run(ctx: Ctx) -> None:
     tables.rule_api_numpy(ctx, [RELABEL])
     rule_alignment(ctx)
     rule_conversion_guard(ctx)
+    rule_dedup_all(ctx)
     rule_str_to_op(ctx)
     ctx.floor("flow.exactly-once", 4)
     ctx.floor("vocab.gates", 6)
@@ -208,6 +209,49 @@ def rule_conversion_guard(ctx: Ctx) -> None:
         raise AnalysisError("solve(): no assignment of the conversion gate list found")
 
 
+def rule_dedup_all(ctx: Ctx) -> None:
+    """dedup.covers-all: the duplicate filter of solve() compares the graphs of *all* result entries: the list it compares
+    (np.array_equal(X[i], X[j])) is, at every assignment, an unfiltered comprehension over the returned result list, and the
+    redundant indices are deleted from that same list."""
+    repo = ctx.repo
+    m = repo.module(ATS)
+    fn = repo.anchor(ATS, "AlternateTargetSolver.solve")
+    ctx.touch(m, fn)
+    rets = [r for r in ast.walk(fn) if isinstance(r, ast.Return) and isinstance(r.value, ast.Name)]
+    if not rets:
+        raise AnalysisError("solve(): no `return <result list>`")
+    res = rets[-1].value.id
+    eq = [c for c in calls_in(fn) if call_name(c) in ("np.array_equal", "nx.utils.graphs_equal") and len(c.args) == 2
+          and all(isinstance(a, ast.Subscript) and isinstance(a.value, ast.Name) for a in c.args)]
+    if not eq:
+        ctx.fail("dedup.covers-all", m, fn, "solve() no longer compares the listed graphs of its result entries pairwise (duplicate filter removed)",
+                 func="AlternateTargetSolver.solve", construct="solve: duplicate filter missing")
+        return
+    X = eq[0].args[0].value.id
+    if eq[0].args[1].value.id != X:
+        raise AnalysisError("solve(): duplicate comparison is not within one list")
+    defs = [a for a in ast.walk(fn) if isinstance(a, ast.Assign) and any(isinstance(t, ast.Name) and t.id == X for t in a.targets)]
+    if not defs:
+        raise AnalysisError(f"solve(): `{X}` is never assigned")
+    for a in defs:
+        v = a.value
+        whole = (isinstance(v, ast.ListComp) and len(v.generators) == 1 and not v.generators[0].ifs and norm(v.generators[0].iter) == res
+                 and any(isinstance(x, ast.Constant) and x.value == "g" for x in ast.walk(v.elt)))
+        if whole:
+            ctx.ok("dedup.covers-all", m, a, what=f"`{X}` holds the graph of every result entry")
+        else:
+            ctx.fail("dedup.covers-all", m, a,
+                     f"solve() sets `{X}` (the graphs the duplicate filter compares) to `{short(v, 70)}` on some path instead of the graph of every "
+                     f"entry of `{res}`: on that path entries listing the same graph are all returned", func="AlternateTargetSolver.solve",
+                     construct=f"solve: duplicate filter does not see every entry of {res}")
+    dels = [d for d in ast.walk(fn) if isinstance(d, ast.Delete) and any(isinstance(t, ast.Subscript) and norm(t.value) == res for t in d.targets)]
+    if dels:
+        ctx.ok("dedup.covers-all", m, dels[0], what=f"redundant entries are deleted from `{res}`")
+    else:
+        ctx.fail("dedup.covers-all", m, fn, f"solve() never deletes the redundant entries from `{res}`", func="AlternateTargetSolver.solve",
+                 construct="solve: redundant entries not deleted")
+
+
 def rule_str_to_op(ctx: Ctx) -> None:
     repo = ctx.repo
     m = repo.module(LCC)
@@ -238,6 +282,7 @@ def rule_str_to_op(ctx: Ctx) -> None:
 
 
 KNOCKOUTS = [
+    Knockout("dedup-filtered", ATS, sub_once('adj_list = [nx.to_numpy_array(result[1]["g"]) for result in results_list]', 'adj_list = [nx.to_numpy_array(result[1]["g"]) for result in results_list if result[1]["score"] > 0]'), "dedup.covers-all", "does not see every entry"),
     Knockout("conversion-skipped-by-index", ATS, sub_once("                if not lc_graph.adj == iso_graph.adj:", "                if lc_graphs.index(lc_graph) > 0:"), "conv.guard", "not guarded by graph equality"),
     Knockout("G11-conditional-append", ATS,
              sub_once("                lc_circ_list.append(circuit)\n", "                if success:\n                    lc_circ_list.append(circuit)\n"),
